@@ -72,4 +72,21 @@ func init() {
 	mutant("C08", "v1-ports-swapped", "C08.R6", "proxyproto/v1.go", "\t\t\tsrc.Port = port\n", "\t\t\tdest.Port = port\n").and("proxyproto/v1.go", "\t\t\tdest.Port = port\n\t\t\tdone = true", "\t\t\tsrc.Port = port\n\t\t\tdone = true")
 	mutant("C08", "v2-ipv6-offsets", "C08.R6", "proxyproto/v2.go", "dest.IP = tr[16:32]", "dest.IP = tr[16:33]")
 	mutant("C08", "v2-udp-swapped", "C08.R6", "proxyproto/v2.go", "\t\t\t\th.Destination = &net.UDPAddr{IP: dest.IP, Port: dest.Port}\n\t\t\t\th.Source = &net.UDPAddr{IP: src.IP, Port: src.Port}\n\t\t\t} else { // TCP\n\t\t\t\th.Destination = &dest\n\t\t\t\th.Source = &src\n\t\t\t}\n\t\t\toffset = ipv4AddressLen", "\t\t\t\th.Destination = &net.UDPAddr{IP: src.IP, Port: src.Port}\n\t\t\t\th.Source = &net.UDPAddr{IP: dest.IP, Port: dest.Port}\n\t\t\t} else { // TCP\n\t\t\t\th.Destination = &dest\n\t\t\t\th.Source = &src\n\t\t\t}\n\t\t\toffset = ipv4AddressLen")
+
+	// ---- C13
+	const pconn = "internal/martian/proxy_conn.go"
+	const phand = "internal/martian/proxy_handler.go"
+	mutant("C13", "unfix-101-skip", "C13.R1,C13.R2", pconn, "if res.StatusCode == http.StatusSwitchingProtocols && res.Body == panicBody {", "if res.StatusCode == http.StatusSwitchingProtocols {")
+	mutant("C13", "unfix-101-close", "C13.R1", pconn, "\t\tif res.StatusCode == http.StatusSwitchingProtocols {\n\t\t\tres.Close = false\n\t\t}\n", "")
+	mutant("C13", "unfix-hijack-report", "C13.R1", phand, "\t\tif err != nil {\n\t\t\tp.traceWroteResponse(res, err)\n\t\t\treturn err\n\t\t}\n\t\tdefer conn.Close()", "\t\tif err != nil {\n\t\t\treturn err\n\t\t}\n\t\tdefer conn.Close()")
+	mutant("C13", "unfix-rebind-connect-rejection", "C13.R2", pconn, "\t\tres.Request = req\n\t\tres.Proto, res.ProtoMajor, res.ProtoMinor = req.Proto, req.ProtoMajor, req.ProtoMinor\n", "\t\tres.Proto, res.ProtoMajor, res.ProtoMinor = req.Proto, req.ProtoMajor, req.ProtoMinor\n")
+	mutant("C13", "drain-error-unreported", "C13.R1", pconn, "\t\terr := fmt.Errorf(\"got error while draining read buffer: %w\", err)\n\t\tp.traceWroteResponse(res, err)\n", "\t\terr := fmt.Errorf(\"got error while draining read buffer: %w\", err)\n")
+	mutant("C13", "tunnel-double-report", "C13.R1", pconn, "\tif err := p.writeResponse(res); err != nil {\n\t\treturn err\n\t}\n\tif err := drainBuffer(crw, p.brw.Reader); err != nil {", "\tif err := p.writeResponse(res); err != nil {\n\t\tp.traceWroteResponse(res, err)\n\t\treturn err\n\t}\n\tif err := drainBuffer(crw, p.brw.Reader); err != nil {")
+	mutant("C13", "early-return-after-read", "C13.R1", pconn, "\tctx := req.Context()\n\n\tp.fixRequestScheme(req)\n", "\tctx := req.Context()\n\n\tif req.ContentLength < -1 {\n\t\treturn errClose\n\t}\n\tp.fixRequestScheme(req)\n")
+	mutant("C13", "mitm-forgets-report", "C13.R1", pconn, "\t// Successful CONNECT response does not invoke trace.\n\tp.traceWroteResponse(res, nil)\n", "")
+	mutant("C13", "once-removed", "C13.R4", "conntrack/conntrack.go", "c.once.Do(c.onClose)", "c.onClose()")
+	mutant("C13", "gauge-labelled-by-response", "C13.R3", "middleware/prometheus.go", "\tp.requestsInFlight.WithLabelValues(labels...).Dec()\n\tp.requestsTotal.WithLabelValues(labelsWithStatus...).Inc()", "\tp.requestsInFlight.WithLabelValues(labelsWithStatus[1:]...).Dec()\n\tp.requestsInFlight.WithLabelValues(labels...).Dec()\n\tp.requestsTotal.WithLabelValues(labelsWithStatus...).Inc()")
+	mutant("C13", "dial-close-other-address", "C13.R5", "net.go", "\t\t\td.metrics.close(address)\n", "\t\t\td.metrics.close(network)\n")
+	mutant("C13", "accept-untracked-tls", "C13.R5", "net.go", "\tl.metrics.accept()\n\tconn = conntrack.Builder{", "\tl.metrics.accept()\n\tif l.TLSConfig != nil {\n\t\treturn tls.Server(conn, l.TLSConfig), nil\n\t}\n\tconn = conntrack.Builder{")
+	mutant("C13", "readfrom-counts-rx", "C13.R6", "conntrack/conntrack.go", "\tn, err = c.Conn.(io.ReaderFrom).ReadFrom(r) //nolint:forcetypeassert // It is checked before.\n\tc.o.addTx(uint64(n))", "\tn, err = c.Conn.(io.ReaderFrom).ReadFrom(r) //nolint:forcetypeassert // It is checked before.\n\tc.o.addRx(uint64(n))")
 }
